@@ -43,6 +43,14 @@ CONF = cfg.CONF
 class BGP(protocol.Protocol):
     """Protocol class for BGP 4"""
 
+    # shortest possible message per type, header included
+    MIN_MSG_LEN = {
+        bgp_cons.MSG_UPDATE: 23,
+        bgp_cons.MSG_NOTIFICATION: 21,
+        bgp_cons.MSG_ROUTEREFRESH: 23,
+        bgp_cons.MSG_CISCOROUTEREFRESH: 23
+    }
+
     def __init__(self):
 
         """Create a BGP protocol.
@@ -213,6 +221,10 @@ class BGP(protocol.Protocol):
             return False
             # Check the length of the message, must be less than 4096, bigger than 19
         if length < bgp_cons.HDR_LEN or length > bgp_cons.MAX_LEN:
+            self.fsm.header_error(bgp_cons.ERR_MSG_HDR_BAD_MSG_LEN, struct.pack('!H', length))
+            return False
+            # UPDATE, NOTIFICATION and ROUTE-REFRESH have a minimum length of their own (RFC 4271 section 6.1)
+        if length < self.MIN_MSG_LEN.get(msg_type, bgp_cons.HDR_LEN):
             self.fsm.header_error(bgp_cons.ERR_MSG_HDR_BAD_MSG_LEN, struct.pack('!H', length))
             return False
             # Check whether the entire message is already available
